@@ -1678,6 +1678,11 @@ func callBin(n *node) {
 			for i, v := range values {
 				val[i+1] = copyValue(getBinValue(getMapType, v, f))
 			}
+			if n.action == aCallSlice {
+				// Deferred functions are run with Call: wrap to preserve the f(s...) form.
+				fn, in := val[0], val[1:]
+				val = []reflect.Value{reflect.ValueOf(func() { fn.CallSlice(in) })}
+			}
 			f.deferred = append([][]reflect.Value{val}, f.deferred...)
 			return tnext
 		}
